@@ -274,10 +274,11 @@ func (b *c17Spin) release(n int) bool {
 // ---- world ----
 
 type c17MapWorld struct {
-	h      *BaseMappingHandler
-	ad     *c17Adapter
-	cl     *c17Client
-	cancel context.CancelFunc
+	dialled int // tunnels dialled so far that are attributed to a connection
+	h       *BaseMappingHandler
+	ad      *c17Adapter
+	cl      *c17Client
+	cancel  context.CancelFunc
 }
 
 // source: "config" = MappingConfig.MaxConnections, "quota" = user quota (config 0)
@@ -422,7 +423,10 @@ func c17MapTrial(run *vk.Run, w *c17MapWorld, cs c17MapCase) {
 		run.Count("mapping_refusals_checked", int64(refused))
 	}
 	if out.CounterAfter != 0 {
+		// quiescence: every handleConnection call of this trial has returned and nothing was
+		// established, so no slot may be held (a refused or failed connection gave it back)
 		run.Count("mapping_counter_nonzero_after_trial", 1)
+		run.Violation("C17:mapping-conn-limit|refused-changed-state|active-counter", out)
 	}
 	run.Distinct(fmt.Sprintf("mapping|%s|%s|L%d|P%d|N%d|K%d|adm%d|win%d", cs.Mode, cs.Source, cs.Limit, cs.Prefill, cs.N, cs.Need, parked, inWin))
 	run.Sample(out)
@@ -616,5 +620,193 @@ func c17EstablishedTrial(run *vk.Run, L int, src string, E int) {
 	run.Sample(out)
 	if relaying > L {
 		run.Violation("C17:mapping-conn-limit|established|exceeded", out)
+	}
+}
+
+// ---------------------------------------------------------------------------
+// histories: refusals at the limit must not consume capacity
+// ---------------------------------------------------------------------------
+
+type c17HistOutcome struct {
+	Limit        int    `json:"limit"`
+	Source       string `json:"limit_source"`
+	Refusals     int    `json:"k_refused_at_limit"`
+	Ended        int    `json:"j_active_ended"`
+	StillActive  int    `json:"still_active"`
+	Readmitted   int    `json:"admitted_after_ending"`
+	Expected     int    `json:"expected_admitted"`
+	CounterAtCap int32  `json:"activeConnCount_after_refusals"`
+	CounterEnd   int32  `json:"activeConnCount_at_end"`
+	LiveEnd      int    `json:"live_admitted_connections_at_end"`
+	Step         string `json:"failed_step,omitempty"`
+}
+
+type c17HistConn struct {
+	app    net.Conn
+	local  *c17Local
+	remote net.Conn // far end of the tunnel dialled for this connection (nil if refused)
+}
+
+// end finishes an established connection the way it ends in production: the application
+// hangs up and the far end of the tunnel closes too (the copy loop is half-close aware and
+// runs until both directions are done).
+func (c *c17HistConn) end() {
+	c.app.Close()
+	if c.remote != nil {
+		c.remote.Close()
+	}
+}
+
+// open hands one local connection to the real handler and waits for handleConnection to
+// return; admitted = the handler did not close it (it is established and relaying).
+func (w *c17MapWorld) open() (*c17HistConn, bool, bool) {
+	app, hs := net.Pipe()
+	l := &c17Local{Conn: hs}
+	done := make(chan struct{})
+	go func() { w.h.handleConnection(l); close(done) }()
+	select {
+	case <-done:
+	case <-time.After(c17Watchdog):
+		app.Close()
+		return nil, false, false
+	}
+	time.Sleep(50 * time.Microsecond) // generateTunnelID is time based: keep ids distinct
+	c := &c17HistConn{app: app, local: l}
+	w.cl.mu.Lock()
+	if n := len(w.cl.remotes); n > w.dialled {
+		c.remote = w.cl.remotes[n-1]
+		w.dialled = n
+	}
+	w.cl.mu.Unlock()
+	return c, !l.closed.Load(), true
+}
+
+// settle waits (bounded) until the handler's counter equals want; the tunnel releases its
+// slot synchronously in Close right after closing the local side, so this takes microseconds.
+func (w *c17MapWorld) settle(want int32) bool {
+	dl := time.Now().Add(3 * time.Second)
+	for time.Now().Before(dl) {
+		if w.h.activeConnCount.Load() == want {
+			return true
+		}
+		time.Sleep(200 * time.Microsecond)
+	}
+	return false
+}
+
+// c17HistoryTrial: fill to the limit, have k more connections refused, end j of the active
+// ones, then open connections until one is refused. Oracle ("a refused request changes
+// nothing" + the limit): at every quiescent point the handler's counter equals the number
+// of live admitted connections, and exactly j connections are admitted again.
+func c17HistoryTrial(run *vk.Run, L int, src string, k, j int) {
+	w := c17NewMapWorld(L, src)
+	defer w.close()
+	w.ad.mode.Store(1)
+	out := c17HistOutcome{Limit: L, Source: src, Refusals: k, Ended: j, Expected: j}
+	run.Case("mapping-history", out)
+	var live []*c17HistConn
+	var all []*c17HistConn
+	defer func() {
+		for _, c := range all {
+			c.app.Close()
+		}
+	}()
+	fail := func(sig, step string) {
+		out.Step = step
+		out.CounterEnd = w.h.activeConnCount.Load()
+		run.Violation(sig, out)
+	}
+	for i := 0; i < L; i++ {
+		c, adm, ok := w.open()
+		if !ok {
+			run.Count("watchdog", 1)
+			return
+		}
+		all = append(all, c)
+		if !adm {
+			run.Count("history_fill_refused_below_limit", 1)
+			return
+		}
+		live = append(live, c)
+	}
+	for i := 0; i < k; i++ {
+		c, adm, ok := w.open()
+		if !ok {
+			run.Count("watchdog", 1)
+			return
+		}
+		all = append(all, c)
+		if adm {
+			fail("C17:mapping-conn-limit|exceeded|history", "connection admitted at the limit")
+			return
+		}
+		run.Count("history_refusals_at_limit", 1)
+	}
+	// quiescent: L established, k refused
+	out.CounterAtCap = w.h.activeConnCount.Load()
+	if int(out.CounterAtCap) != len(live) {
+		fail("C17:mapping-conn-limit|refused-changed-state|active-counter", "after k refusals at the limit: counter != live admitted connections")
+		return
+	}
+	// end j active connections (the application side hangs up)
+	for i := 0; i < j; i++ {
+		live[i].end()
+	}
+	live = live[j:]
+	out.StillActive = len(live)
+	if !w.settle(int32(len(live))) {
+		fail("C17:mapping-conn-limit|refused-changed-state|active-counter", "after j active connections ended: counter did not return to the number of live connections")
+		return
+	}
+	// new connections: exactly limit - still-active are admitted, the next one is refused
+	for i := 0; i < j+1; i++ {
+		c, adm, ok := w.open()
+		if !ok {
+			run.Count("watchdog", 1)
+			return
+		}
+		all = append(all, c)
+		if !adm {
+			break
+		}
+		out.Readmitted++
+		live = append(live, c)
+	}
+	out.LiveEnd = len(live)
+	out.CounterEnd = w.h.activeConnCount.Load()
+	run.Eval(1)
+	run.Count("history_readmissions", int64(out.Readmitted))
+	run.Distinct(fmt.Sprintf("history|%s|L%d|k%d|j%d|readm%d", src, L, k, j, out.Readmitted))
+	run.Sample(out)
+	switch {
+	case out.Readmitted > j:
+		fail("C17:mapping-conn-limit|exceeded|history", "more connections admitted than limit - still-active")
+	case out.Readmitted < j:
+		fail("C17:mapping-conn-limit|refused-changed-state|capacity-lost", "fewer connections admitted than limit - still-active after refusals")
+	case int(out.CounterEnd) != out.LiveEnd:
+		fail("C17:mapping-conn-limit|refused-changed-state|active-counter", "at the end: counter != live admitted connections")
+	}
+}
+
+func TestVerifC17MappingHistory(t *testing.T) {
+	vk.Quiet()
+	run := vk.Start(t, "C17", "mapping-history")
+	defer run.Finish()
+	run.Rule("sequential histories on the real handler with established tunnels (DialTunnel over net.Pipe): limit L in {1,2,3} from the mapping config or the user quota; fill to L, k in {1,2,4} further connections (refused), " +
+		"j in {1..L} active connections end (application hangs up), then connections are opened until one is refused. In-package audit of activeConnCount against the live admitted connections at each quiescent point. distinct = (source, L, k, j, re-admitted)")
+	run.Floor("history_refusals_at_limit", 30)
+	run.Floor("history_readmissions", 30)
+	verifhook.Set(nil)
+	reps := run.Pick(1, 10)
+	for rep := 0; rep < reps; rep++ {
+		for _, L := range []int{1, 2, 3} {
+			for _, src := range []string{"config", "quota"} {
+				for _, k := range []int{1, 2, 4} {
+					for j := 1; j <= L && run.Violations() < 20; j++ {
+						c17HistoryTrial(run, L, src, k, j)
+					}
+				}
+			}
+		}
 	}
 }
